@@ -18,11 +18,49 @@ func init() {
 }
 
 func runC20(p *Prog, r *Report) {
-	nilSafe(p, r, "C20.15/nil-safe", "macat's socket exists only after the protocol option was given: every loop that uses it is reached only through the test in Run", func(fn *ssa.Function) bool {
+	{
+		// what reaches standard output is what printMsg writes: nothing else reads the writer
+		R := "C20.17/stdout-only-messages"
+		r.Describe(R, "the output stream is read (and therefore written to) by printMsg only, and set by Initialize only: a diagnostic or progress line written to it by anything else is text that never crossed the socket, and breaks the raw and msgpack record streams")
+		q := NewQ(p, r)
+		readers := map[string][]string{}
+		writers := map[string][]string{}
+		n := 0
+		for _, fn := range p.Funcs {
+			if rel, _ := p.FuncRel(fn); rel != "macat" {
+				continue
+			}
+			EachInstr(fn, func(in ssa.Instruction) {
+				fa, ok := in.(*ssa.FieldAddr)
+				if !ok {
+					return
+				}
+				fv, owner := fieldAddrVar(fa)
+				if fv == nil || owner == nil || fv.Name() != "stdOut" || owner.Obj().Name() != "App" {
+					return
+				}
+				for _, ref := range *fa.Referrers() {
+					switch x := ref.(type) {
+					case *ssa.UnOp:
+						n++
+						readers[p.FuncName(fn)] = append(readers[p.FuncName(fn)], p.InstrPos(x))
+					case *ssa.Store:
+						if x.Addr == fa {
+							writers[p.FuncName(fn)] = append(writers[p.FuncName(fn)], p.InstrPos(x))
+						}
+					}
+				}
+			})
+		}
+		r.Count("c20.stdout_reads", n)
+		q.OnlyIn(R, "readers-of-stdOut", readers, []string{"macat.(*App).printMsg"}, []string{"macat.(*App).printMsg"})
+		q.OnlyIn(R, "writers-of-stdOut", writers, []string{"macat.(*App).Initialize"}, []string{"macat.(*App).Initialize"})
+	}
+	nilSafe(p, r, "C20.16/nil-safe", "macat's socket exists only after the protocol option was given: every loop that uses it is reached only through the test in Run", func(fn *ssa.Function) bool {
 		rel, _ := p.FuncRel(fn)
 		return rel == "macat"
 	})
-	r.Floor("C20.15/nil-safe", "e12b.uses.C20.15/nil-safe", 5)
+	r.Floor("C20.16/nil-safe", "e12b.uses.C20.16/nil-safe", 5)
 	q := NewQ(p, r)
 	R := "C20.1/length-narrowing"
 	r.Describe(R, "byte(len(x)) needs len(x) < 256, uint16(len(x)) needs len(x) < 65536 as dominating guards (all functions of macat)")
